@@ -18,6 +18,19 @@ Theorem C14_members_exact :
 Proof. exact members_exact_proof. Qed.
 Print Assumptions C14_members_exact.
 
+(* The same in declarative terms (Spec.is_group): for a valid definition with at least one filter line the
+   answer g lists pool positions in strictly increasing order (pool order, each position at most once), a
+   position is listed iff its node satisfies at least one line (every function of the line holds: some
+   alternative matches iff the function is not negated), and each member carries the offset of the
+   annotation of the FIRST line it satisfies. *)
+Theorem C14_group_characterisation :
+  forall re_ok re_match dur rp rf ra pool lines annos,
+    def_valid re_ok dur lines annos = true -> lines <> [] ->
+    exists g, filter_and_annotate re_ok re_match dur pool lines annos = Ok g
+              /\ is_group re_ok re_match dur rp rf ra pool lines annos g.
+Proof. exact group_characterisation_proof. Qed.
+Print Assumptions C14_group_characterisation.
+
 (* A group without filters contains every node, with a zero offset. *)
 Theorem C14_no_filters_all :
   forall re_ok re_match dur pool,
@@ -35,6 +48,16 @@ Theorem C14_invalid_never_silent :
                 (to_outcome (filter_and_annotate re_ok re_match dur pool lines annos)).
 Proof. exact never_silent_proof. Qed.
 Print Assumptions C14_invalid_never_silent.
+
+(* A reported error names a fragment that really occurs in the definition (the error class is right):
+   bad regex / unknown key inside a name() or subtag() function, unknown input, malformed or unknown
+   annotation, annotation count mismatch.  No other error class is ever produced. *)
+Theorem C14_error_genuine :
+  forall re_ok re_match dur pool lines annos e,
+    filter_and_annotate re_ok re_match dur pool lines annos = Err e ->
+    error_genuine re_ok dur lines annos e.
+Proof. exact error_genuine_proof. Qed.
+Print Assumptions C14_error_genuine.
 
 (* The stricter reading "every invalid definition is rejected" is FALSE of the code: validation is lazy
    (only fragments actually consulted are validated; with an empty pool nothing is). *)
@@ -54,6 +77,28 @@ Theorem C14_policy_validation :
 Proof. exact policy_validation_proof. Qed.
 Print Assumptions C14_policy_validation.
 
+(* fixed(i) picks the i-th member of the group, and is an error exactly when there is no such member
+   (negative, beyond the end, empty group) - checked when a connection selects, not at load time. *)
+Theorem C14_fixed_ith :
+  forall (A : Type) (g : list A) (i : Z), result_to_option (select_fixed g i) = fixed_choice g i.
+Proof. exact fixed_ith_proof. Qed.
+Print Assumptions C14_fixed_ith.
+
+(* Annotation of one line: accepted iff every setting is add_latency with a well-formed duration; its
+   offset is the first NON-ZERO setting. *)
+Theorem C14_annotation_value :
+  forall dur a z,
+    new_annotation dur a = Ok z <-> (anno_valid dur a = true /\ z = first_nonzero (anno_settings dur a)).
+Proof. exact anno_value_proof. Qed.
+Print Assumptions C14_annotation_value.
+
+(* The Go comment "Only the first setting is valid" read literally is false of the code. *)
+Definition C14_anno_first_setting_full : Prop :=
+  forall dur a z, new_annotation dur a = Ok z -> z = hd 0%Z (anno_settings dur a).
+Theorem C14_anno_first_setting_refuted : ~ C14_anno_first_setting_full.
+Proof. exact anno_first_setting_refuted_proof. Qed.
+Print Assumptions C14_anno_first_setting_refuted.
+
 (* keyword really is "substring" *)
 Theorem C14_keyword_is_substring :
   forall s kw, containsb s kw = true <-> is_substring kw s.
@@ -63,3 +108,7 @@ Print Assumptions C14_keyword_is_substring.
 (* Non-vacuity: a pool with duplicate and empty names, two lines, negation, annotation. *)
 Example C14_nonvacuous : nonvacuous_statement.
 Proof. exact nonvacuous_proof. Qed.
+
+(* The constants read from the Go sources on this run are the ones the spec uses. *)
+Example C14_consts_tied : consts_tied_statement.
+Proof. exact consts_tied_proof. Qed.
